@@ -149,7 +149,9 @@ def compare(case, obs, reply):
         if dec_op:
             info['decimal_stop'] = True
             break
-    # memory
+    # memory (not after a decimal-mode stop: the binary-only Spec has diverged from there on)
+    if info['decimal_stop']:
+        return out, info
     for a, v in scells.items():
         rv = mem.peek(a)
         if rv != v:
